@@ -5,10 +5,13 @@ What is proved is the part of the parser that is bookkeeping and control rather 
 the cursor and its (row, col) location under every consume operation, the end-of-line
 skipping used by error recovery, the decision `Ok(tree)` / `Err(report)` at the end of
 `parser::parse`, and the progress argument of the recovery loop.  The nom grammar itself is
-not modelled: for it the check runs the real parser (no panic, no hang, reported ranges
-inside the input, same outcome twice) — that part is search.
+not modelled as such: for it the check runs the real parser (no panic, no hang, reported ranges
+inside the input, same outcome twice) — that part is search.  For the statement / expression
+sublanguage of Model/Syntax.lean the token-level parser is a total function by construction, and
+what it accepts it accounts for completely.
 -/
 import MechVerif.Model.Cursor
+import MechVerif.Lemmas.Syntax
 namespace MechVerif.Cursor
 
 /-- the cursor states the parser can be in: reached from the start by consuming graphemes -/
@@ -223,3 +226,28 @@ theorem C09_recovery_progress (len : Nat) (next : Nat → Nat) : ∀ (fuel c : N
         exact ⟨by omega, fun hf => b (by omega)⟩
 
 end MechVerif.Cursor
+
+/-! ### the token-level parser of statements and expressions (Model/Syntax.lean) -/
+namespace MechVerif.Syntax
+
+/-- On the modelled sublanguage the parser, a total function of the token text (structural recursion
+    on its fuel: it always returns), gives the same outcome for the same text, and a tree only when
+    the tree accounts for the entire input: the statements' rendering is the whole text, token for
+    token, nothing skipped and nothing left over. -/
+theorem C09_tree_accounts_for_entire_input (g : Gram) (n : Nat) (ts : List Tok) :
+    (∃ ss, pProg g n ts = some ss ∧ rProg g ss = ts) ∨ pProg g n ts = none := by
+  cases h : pProg g n ts with
+  | none => exact Or.inr rfl
+  | some ss => exact Or.inl ⟨ss, rfl, (pProg_sound g n ts ss h).symm⟩
+
+/-- More fuel than the text needs never changes an accepted outcome's meaning: two accepted parses of
+    one text (with whatever fuel) are the same statements. -/
+theorem C09_outcome_independent_of_fuel (g : Gram) (n m : Nat) (ts : List Tok) (ss ss' : List Stmt)
+    (h : pProg g n ts = some ss) (h' : pProg g m ts = some ss') (hne : ss ≠ [])
+    (hok : ∀ s ∈ ss, costStmt s ≤ m ∧ okStmt g s) : ss' = ss := by
+  have e := pProg_sound g n ts ss h
+  have := pProg_complete g m ss hne hok
+  rw [← e, h'] at this
+  exact Option.some.inj this
+
+end MechVerif.Syntax
